@@ -114,6 +114,6 @@ def run_parallel(cmds, max_par=NPROC, timeout=None):
             p = subprocess.run(c, stdout=subprocess.PIPE, stderr=subprocess.PIPE, text=True, timeout=timeout)
             return p.returncode, p.stdout, p.stderr
         except subprocess.TimeoutExpired as e:
-            return -9, (e.stdout or b'').decode() if isinstance(e.stdout, bytes) else (e.stdout or ''), 'timeout'
+            return -9, '', 'timeout'
     with cf.ThreadPoolExecutor(max_workers=max_par) as ex:
         return list(ex.map(one, cmds))
